@@ -37,7 +37,7 @@ pub struct Case {
 pub const NAMES: [&str; 6] = ["left", "Left", "right", "aux", "LEFT", "Disabled"];
 
 /// prose candidates; each is pre-screened (must parse alone as prose only)
-pub const PROSE: [&str; 32] = [
+pub const PROSE: [&str; 56] = [
   "This is a paragraph about things.",
   "Another paragraph, with numbers 1 2 3 and some words.",
   "Note that y = x + 1 in what follows.",
@@ -66,15 +66,41 @@ pub const PROSE: [&str; 32] = [
   "~~~\ntilde fenced\nv3 := 5\n~~~",
   // comments whose text looks like code, contains statement separators, or uses inline markup
   "-- set it later; v1 = 5",
-  "// a slash comment about v1 := 3; v2 := 4",
-  "-- note: v1 := 77",
+  "// a slash comment about v1 = 3; v2 = 4",
+  "-- note: v1 = 77",
   "-- **bold**, `code` and [a link](http://x.y) in a comment",
-  "-- a_b *not closed [see below",
+  "-- a\\_b \\*not closed, see below",
   "-- first; second; third",
+  // a fence of one type shown inside a fence of the other type (the documented way to display a fence), longer around shorter
+  "~~~\n```\nv1 := 41\n```\n~~~",
+  "```text\n~~~\nv2 := 42\n~~~\n```",
+  "````\n```\nv1 := 43\n```\n````",
+  "~~~python\n```mech\nv1 := 44\n```\n~~~",
+  "```\n~~~mech\nv3 := 45\n~~~\n```",
+  "~~~mech:disabled\nv1 := 46\nv2 := 47\n~~~",
+  "```python title\nv1 := 48\n```",
+  // block elements whose text looks like code
+  "- v1 = 51\n- v2 = 52",
+  "1. v1 = 53\n2. v2 = 54",
+  "> v1 = 55",
+  "(i)> v1 = 56 is only shown",
+  "(!)> careful: v2 = 57",
+  "(?)> is v3 = 58 run",
+  "[^1]: a footnote saying v1 = 59",
+  "| v1 = 60 | b |\n|---|---|\n| v2 = 61 | 2 |",
+  "![v1 = 62](img.png)",
+  "$$ v1 = 63",
+  "-[x] v1 = 64\n-[ ] v2 = 65",
+  "Some text with `v1 = 66` inline code and **v2 = 67** strong.",
+  "See [v1 = 68](http://x.y/v2) for details.",
+  "  - nested v1 = 69\n  - item",
+  "Title words v1\n==============",
+  "(1.1) v1 = 70 as a subtitle",
+  "%% v1 = 71",
 ];
 
 /// comments appended to a statement on the same line (0 = none)
-pub const TRAILING: [&str; 6] = ["", " -- plain words", " -- reset; v1 = 9", " // slash; v2 := 8", " -- note: v3 := 7", " -- a_b *x"];
+pub const TRAILING: [&str; 6] = ["", " -- plain words", " -- reset; v1 = 9", " // slash; v2 = 8", " -- note: v3 = 7", " -- a\\_b x"];
 
 impl Prop for C10 {
   type Case = Case;
@@ -82,7 +108,7 @@ impl Prop for C10 {
   fn budget(t: Tier) -> u32 { t.pick(3_000, 50_000) }
   fn strategy(_t: Tier, _k: &Known) -> BoxedStrategy<Case> {
     let choices = || proptest::collection::vec(0u32..100_000, 4..=40);
-    (proptest::collection::vec(choices(), 1..=3), proptest::collection::vec(0u8..6, 2), proptest::collection::vec((0u8..3, prop_oneof![Just(Place::Bare), Just(Place::Fence)]), 1..=14), proptest::collection::vec(prop_oneof![2 => Just(255u8), 5 => 0u8..26, 2 => 26u8..32], 16), any::<bool>(), prop_oneof![4 => Just(0u8), 1 => 1u8..3], proptest::bool::weighted(0.1), proptest::collection::vec(prop_oneof![3 => Just(0u8), 2 => 1u8..6], 14))
+    (proptest::collection::vec(choices(), 1..=3), proptest::collection::vec(0u8..6, 2), proptest::collection::vec((0u8..3, prop_oneof![Just(Place::Bare), Just(Place::Fence)]), 1..=14), proptest::collection::vec(prop_oneof![2 => Just(255u8), 5 => 0u8..26, 2 => 26u8..32, 5 => 32u8..56], 16), any::<bool>(), prop_oneof![4 => Just(0u8), 1 => 1u8..3], proptest::bool::weighted(0.1), proptest::collection::vec(prop_oneof![3 => Just(0u8), 2 => 1u8..6], 14))
       .prop_map(|(programs, names, order, prose, title, error_in, tight, trailing)| {
         let mut names = names; if names[0] == names[1] { names[1] = (names[1] + 1) % 6; }
         Case { programs, names, order, prose, title, error_in, tight, trailing }
@@ -91,7 +117,7 @@ impl Prop for C10 {
   fn rule() -> &'static str {
     "case = 1-3 independent programs over the SAME variable names (one for the unnamed program, the others for named fences whose names \
      include case variants left/Left/LEFT and `Disabled`), their statements interleaved in document order, each placed as bare code or in \
-     a fence, with prose elements from a 32-element pool in between (paragraphs incl. code-looking ones, lists, quotes, thematic break, \
+     a fence, with prose elements from a 56-element pool in between (paragraphs incl. code-looking ones, lists, quotes, thematic break, \
      markdown table, python / plain / tilde / disabled / capitalised-tag fences containing conflicting definitions, `--` and `//` comments (also with code-looking text, `;` separators and inline markup, stand-alone and trailing a statement), section \
      headers) and an optional title; optionally an erroneous last statement in one named fence. Prose candidates are pre-screened (must \
      parse alone as prose only). Oracle (metamorphic): main snapshot == interpreting the unnamed program's code alone; the set of \
@@ -132,7 +158,7 @@ fn build_doc(c: &Case) -> (String, Vec<Vec<String>>, usize, bool, usize) {
     let pi = (*pi as usize) % progs.len();
     if next[pi] >= progs[pi].len() { continue; }
     let pr = c.prose[k % c.prose.len()];
-    if pr != 255 { let text = PROSE[pr as usize % PROSE.len()]; if prose_ok(text) { parts.push(text.to_string()); nprose += 1; if pr <= 5 || (14..=18).contains(&pr) || pr == 25 || pr >= 26 { codeish = true; } } else { rejected += 1; } }
+    if pr != 255 { let text = PROSE[pr as usize % PROSE.len()]; if prose_ok(text) { parts.push(text.to_string()); nprose += 1; if pr <= 5 || (14..=18).contains(&pr) || pr == 25 || (pr >= 26 && pr != 54) { codeish = true; } } else { rejected += 1; } }
     let stmt = progs[pi][next[pi]].clone();
     next[pi] += 1;
     per_ns[pi].push(stmt.clone());
